@@ -318,8 +318,7 @@ class NPMixin:
             raise Unsupported('arithmetic on a compressed selection')
         if isinstance(A, Arr) or isinstance(B, Arr):
             return self.arr_binop(op, A, B, st, node)
-        if not is_sym(_z(a) if not isinstance(a, (Ref, Tup)) else a) and not is_sym(b) and not isinstance(a, (Maybe,)) \
-                and isinstance(a, (int, float)) and isinstance(b, (int, float)):
+        if isinstance(a, (int, float)) and isinstance(b, (int, float)):
             try:
                 return self.concrete_binop(op, a, b)
             except ZeroDivisionError:
